@@ -244,6 +244,33 @@ func c10Build() *c10World {
 			io.Copy(ioutil.Discard, r)
 		}})
 	}
+	// --- header strings that reach a parser from outside: the Digest / MI-Draft2 value handed to the MI decoder
+	// (every truncation - e.g. cut right before its '=' - and every byte), the Signature header of an exchange
+	for i := range miArts {
+		a := miArts[i]
+		enc := []mice.Encoding{mice.Draft02Encoding, mice.Draft03Encoding}[i]
+		stream := a.data
+		da := &c10Artifact{name: "digest-" + string(enc), data: []byte(miDigest[a.name])}
+		w.targets = append(w.targets, &c10Target{name: "mice.NewDecoder(hostile digest header, " + string(enc) + ")", artifacts: []*c10Artifact{da}, run: func(in []byte) {
+			r, err := enc.NewDecoder(bytes.NewReader(stream), string(in), 16384)
+			if err != nil {
+				return
+			}
+			io.Copy(ioutil.Discard, r)
+		}})
+	}
+	var sigArts []*c10Artifact
+	for _, v := range sxgversion.AllVersions {
+		sigArts = append(sigArts, &c10Artifact{name: "signature-header-" + string(v), data: []byte(c18W.ex[v].SignatureHeaderValue)})
+	}
+	w.targets = append(w.targets, &c10Target{name: "Exchange.Verify(hostile Signature header)", artifacts: sigArts, run: func(in []byte) {
+		e, err := signedexchange.ReadExchange(bytes.NewReader(sxgFiles[sxgversion.Version1b3]))
+		if err != nil {
+			panic("c10: base exchange does not read: " + err.Error())
+		}
+		e.SignatureHeaderValue = string(in)
+		e.Verify(verifyAt, func(string) ([]byte, error) { return chain, nil }, c10DiscardLog)
+	}})
 	// --- raw CBOR decoder methods, structured headers, integrity-block detection: raw strings
 	rawArt := []*c10Artifact{{name: "raw", data: nil}}
 	w.targets = append(w.targets, &c10Target{name: "cbor.Decoder(all methods)", artifacts: rawArt, run: func(in []byte) {
@@ -482,7 +509,7 @@ func init() {
 	register(&mc.Property{
 		ID:          "C10",
 		Level:       "model_checking",
-		Rule:        "choice-tree enumeration of hostile inputs for every parser entry point (bundle.Read, ReadExchange, Exchange.Verify with hostile file / hostile cert chain, ReadCertChain, bundle signature NewVerifier+VerifyExchange on properly signed hostile subsets, both structured-header parsers, MI decoder for both drafts, every cbor.Decoder method, integrity-block detection on a reader and on a file), executed in watchdog-supervised workers under ulimit -v: valid artifacts of every format with one mutation (every CBOR length/count head x 11 boundary values, every fixed-width length field x boundary values, truncation at every offset, every byte x 8 values quick / 256 thorough) and all raw strings up to 3 bytes over a 21-byte alphabet (thorough: all strings <= 2 bytes, <= 4 reduced) with integrity-block tails. Monitor: returns (no panic, no crash, no hang) and heap allocation <= 64 MiB + 64 x len(input) (runtime/metrics). Every case is non-trivial (the monitor applies to all); distinct by (entry point, input).",
+		Rule:        "choice-tree enumeration of hostile inputs for every parser entry point (bundle.Read, ReadExchange, Exchange.Verify with hostile file / hostile cert chain, ReadCertChain, bundle signature NewVerifier+VerifyExchange on properly signed hostile subsets, both structured-header parsers, MI decoder for both drafts on hostile streams and on hostile digest-header strings, Exchange.Verify with a hostile Signature header string, every cbor.Decoder method, integrity-block detection on a reader and on a file), executed in watchdog-supervised workers under ulimit -v: valid artifacts of every format with one mutation (every CBOR length/count head x 11 boundary values, every fixed-width length field x boundary values, truncation at every offset, every byte x 8 values quick / 256 thorough) and all raw strings up to 3 bytes over a 21-byte alphabet (thorough: all strings <= 2 bytes, <= 4 reduced) with integrity-block tails. Monitor: returns (no panic, no crash, no hang) and heap allocation <= 64 MiB + 64 x len(input) (runtime/metrics). Every case is non-trivial (the monitor applies to all); distinct by (entry point, input).",
 		Assumptions: []string{"the allocation bound's constant covers the two 3-byte-length prologue buffers (2 x 16 MiB) the signed-exchange format itself allows", "cbor.Deterministic is not an entry point of this property (its refusal-by-panic is judged under C13)"},
 		Harnesses:   []*mc.Harness{h},
 		Guard: func(s map[string]*mc.Stats) error {
